@@ -96,7 +96,7 @@ def replay_files(job, kinds, observed, complaints, extra=None, nat=None, orc=Non
 
 
 def run_property(pid, tier, jobs, *, native_len, timeout_s, functions, assumptions, level_note_extra="",
-                 crate_name=None, kani_jobs=None, deep=False):
+                 crate_name=None, kani_jobs=None, deep=False, ascent=False):
     t0 = time.time()
     known = K.load_known_findings().get(pid, {})
     crate, accepted, rejected = e1.prepare(jobs, crate_name or ("e1_" + pid.lower()))
@@ -146,6 +146,49 @@ def run_property(pid, tier, jobs, *, native_len, timeout_s, functions, assumptio
                 key = "native:%s:%s:%s:%s" % (j.g.name, j.algo, j.start, "_".join(map(str, w)))
                 violations.append((key, "%s on input %s: %s" % (j.key(), [j.g.terms[k].name for k in w], "; ".join(bad)),
                                    replay_files(j, w, obs, bad, nat=nat, orc=orc)))
+    # ---- recursive-ascent backend: NATIVE runs only (it cannot be executed symbolically: probe P2); same inputs, same oracle
+    ascent_traces = 0
+    if ascent and accepted:
+        import copy
+        ajobs = []
+        for j in accepted:
+            if j.info and j.info.get(j.start, {}).get("recovery"):
+                continue
+            if j.algo != "lane" and tier == "quick":
+                continue          # the ascent code generator is the same for every construction algorithm: one in the quick tier
+            if any(a.modname == j.modname + "_asc" for a in ajobs):
+                aj = copy.copy(j)
+                aj.modname = j.modname + "_asc"
+                aj.gen = [a for a in ajobs if a.modname == aj.modname][0].gen
+                ajobs.append(aj)
+                continue
+            text = G.to_lalrpop(j.g, force_lalr=K.ALGOS[j.algo][0], ascent=True)
+            gen = K.run_generator(text, j.g.name, env=dict(K.ALGOS[j.algo][1]), features=sorted(j.feats) or None)
+            if not gen.ok:
+                continue          # error recovery etc. are table-driven only
+            aj = copy.copy(j)
+            aj.modname = j.modname + "_asc"
+            aj.gen = gen
+            aj.text = text
+            ajobs.append(aj)
+        if ajobs:
+            anat = native.NativeParsers(ajobs, name="nat_asc_" + pid.lower())
+            queries, meta = [], []
+            for j in ajobs:
+                act = [i for i, a in enumerate(j.spec.active) if a]
+                for w in all_inputs(act, native_len):
+                    queries.append((j.modname, j.start, w))
+                    meta.append((j, w))
+            res = anat.run(queries)
+            for (j, w), obs in zip(meta, res):
+                ascent_traces += 1
+                orc = oracles[(j.g.name, tuple(sorted(j.feats)), j.start)]
+                bad = [b for b in orc.check(w, obs, canonical=(j.algo == "lr1")) if relevant(pid, b) and not b.startswith(("duplicate in expected", "expected list names", "canonical LR(1)"))]
+                if bad:
+                    key = "ascent:%s:%s:%s:%s" % (j.g.name, j.algo, j.start, "_".join(map(str, w)))
+                    violations.append((key, "recursive-ascent parser of %s [%s] on input %s: %s" % (j.g.name, j.algo, [j.g.terms[k].name for k in w], "; ".join(bad)),
+                                       replay_files(j, w, obs, bad, nat=anat, orc=orc)))
+        traces += ascent_traces
     # ---- deep stacks (native): pumped inputs longer than the number of LR states, each followed by every terminal and by EOF
     deep_traces = 0
     if deep and accepted:
@@ -274,6 +317,7 @@ def run_property(pid, tier, jobs, *, native_len, timeout_s, functions, assumptio
         "configurations": sorted({"%s/%s/%s" % (j.algo, ",".join(sorted(j.feats)) or "-", "env" if j.feat_env else "cli") for j in accepted}),
         "functions_encoded": functions,
         "deep_stack_native_runs": deep_traces,
+        "recursive_ascent_native_runs": ascent_traces,
         "bounds": {"max_tokens_N": sorted({j.n for j in accepted}), "native_validation_max_len": native_len,
                    "per_harness_timeout_s": timeout_s,
                    "outside": "inputs longer than N tokens; grammars outside the corpus; recursive-ascent backend"},
